@@ -88,6 +88,7 @@ func TestConcurrentHistories(t *testing.T) {
 	httpMode := os.Getenv("VERIF_MODE") == "http"
 	condMix := os.Getenv("VERIF_OPMIX") == "cond"
 	aclMix := os.Getenv("VERIF_OPMIX") == "acl"
+	sameMix := os.Getenv("VERIF_OPMIX") == "same" // many identical read requests by different callers at the same time
 	realFile := os.Getenv("VERIF_AUDITFILE") != "" // audit.NewFile on a real file; records read back afterwards
 	d := NewDict(0)
 	d.sigma = map[rune]rune{}
@@ -171,12 +172,19 @@ func TestConcurrentHistories(t *testing.T) {
 			if aclMix && (ci > 0 || r.Intn(3) == 0) {
 				rules = partial[r.Intn(len(partial))]
 			}
+			if sameMix && ci > 0 {
+				rules = [][]RuleJ{suRules, restricted, restricted, partial[4]}[r.Intn(4)] // mostly callers who may read "a", each in its own right
+			}
 			for k := 0; k < ncalls; k++ {
 				c := Call{Who: p.cl, Rules: rules, Name: shared[r.Intn(len(shared))], Val: "Nil", Fault: "none"}
 				if r.Intn(4) > 0 {
 					c.Name = shared[0]
 				}
 				x := r.Intn(100)
+				if sameMix { // reads of one name with very few distinct arguments, now and then something that changes it
+					x = []int{40, 40, 40, 40, 46, 46, 46, 52, 52, 60, 10, 80}[r.Intn(12)]
+					c.Name = shared[0]
+				}
 				if condMix { // C09: conditional gets racing activations, puts and deletions
 					x = []int{50, 50, 50, 50, 80, 80, 80, 10, 10, 88, 97, 40}[r.Intn(12)]
 				}
@@ -187,6 +195,9 @@ func TestConcurrentHistories(t *testing.T) {
 					c.Op = "get"
 				case x < 50:
 					c.Op, c.Ver = "getver", 1+r.Intn(3)
+					if sameMix {
+						c.Ver = 1 + r.Intn(2)
+					}
 				case x < 58:
 					c.Op, c.Ver = "getcond", 1+r.Intn(3)
 				case x < 62:
